@@ -2,6 +2,7 @@ package mon
 
 import (
 	"math"
+	"strconv"
 	"strings"
 
 	"xselverif/internal/adoc"
@@ -45,7 +46,39 @@ var numericStrings = []string{
 	"abc", "true", "false", "a1", "1a", "é", "日本", "😀",
 }
 
+// genLongNumeral: decimal numerals with 12..25 significant digits and a fraction (where a
+// conversion that is not correctly rounded shows), or the shortest spelling of a random double.
+func genLongNumeral(g *rng.R) string {
+	if g.P(40) {
+		f := math.Ldexp(g.F01()+1, g.Range(-12, 40))
+		return strconv.FormatFloat(f, 'f', -1, 64)
+	}
+	n := g.Range(12, 25)
+	point := g.Range(0, n-1)
+	var sb strings.Builder
+	if g.P(20) {
+		sb.WriteByte('-')
+	}
+	for i := 0; i < n; i++ {
+		if i == point {
+			if i == 0 && g.Bool() {
+				sb.WriteByte('0')
+			}
+			sb.WriteByte('.')
+		}
+		d := byte('0' + g.Intn(10))
+		if i == 0 && point != 0 && d == '0' {
+			d = '7'
+		}
+		sb.WriteByte(d)
+	}
+	return sb.String()
+}
+
 func genNumericString(g *rng.R) string {
+	if g.P(10) {
+		return genLongNumeral(g)
+	}
 	if g.P(60) {
 		return rng.Pick(g, numericStrings)
 	}
